@@ -191,16 +191,38 @@ class Ctx:
             self.broken.append(("assumptions:" + prop_module, out[-400:]))
             return
         cur = None
+        in_axioms = False
         for line in out.splitlines():
             if line.startswith("@@ "):
                 cur = line[3:].strip()
                 self.assumptions_seen[cur] = []
-            elif cur and re.match(r"^[A-Za-z_][\w.']*\s*:", line) and not line.startswith("Closed under"):
-                ax = line.split(":")[0].strip()
+                in_axioms = False
+            elif line.startswith("Axioms:"):
+                in_axioms = True
+            elif line.startswith("Closed under"):
+                in_axioms = False
+            elif cur and in_axioms:
+                # an axiom is printed at column 0 as `Name : type` or as `Name` with `  : type` on the next line(s)
+                m = re.match(r"^([A-Za-z_][\w.']*)\s*(:|$)", line)
+                if not m:
+                    continue
+                ax = m.group(1)
                 self.assumptions_seen[cur].append(ax)
-                if ax not in ALLOWED_AXIOMS and not ax.startswith("PrimFloat.") and not ax.startswith("Uint63.") \
-                        and not ax.startswith("PrimInt63.") and not ax.startswith("FloatOps.") and not ax.startswith("Sint63."):
-                    self.broken.append(("assumptions:" + cur, "theorem depends on non-stdlib axiom %s" % ax))
+        # every reported axiom/primitive must be a constant of Coq's own standard library (logical path Coq.*)
+        names = sorted({a for l in self.assumptions_seen.values() for a in l})
+        if names:
+            text2 = "From PR Require Import %s.\n" % prop_module + "".join("Locate %s.\n" % a for a in names)
+            out2, ok2 = self.coqc("assumptions_locate", text2, timeout=300)
+            paths = re.findall(r"^(?:Constant|Inductive|Axiom)\s+(\S+)", out2, re.M)
+            full = {}
+            for a in names:
+                cands = [q for q in paths if q == a or q.endswith("." + a.split(".")[-1])]
+                full[a] = sorted(set(cands))
+            self.axiom_paths = full
+            for thm, axs in self.assumptions_seen.items():
+                for a in axs:
+                    if not full.get(a) or not all(q.startswith("Coq.") for q in full[a]):
+                        self.broken.append(("assumptions:" + thm, "theorem depends on %s (%s), which is not a standard-library constant" % (a, full.get(a))))
 
     def prove(self, prop_file, gen_modules=(), extra_targets=()):
         """Steps 1-2 of a check: regenerate, rebuild, gate, assumptions. Returns True iff all obligations hold."""
@@ -316,6 +338,7 @@ class Ctx:
             "traces_validated_against_impl": self.traces,
             "input_distribution": self.hist,
             "print_assumptions": self.assumptions_seen,
+            "axiom_paths": getattr(self, "axiom_paths", {}),
             "theorems": getattr(self, "theorems", []),
             "no_longer_checks": [list(b) for b in self.broken],
             "notes": self.notes,
